@@ -5,7 +5,11 @@ TRUSTED_BASE = [
     "axioms per theorem as listed under coverage.theorems (subset of propext, Classical.choice, Quot.sound)",
     "tools/rs2lean.py (constants + bit functions regenerated from /repo/src on every run)",
     "tools/rs2lean_text.py (string literals, format strings, option validity table, file-name formats regenerated on every run)",
-    "tools/skeleton.py (call-order skeletons of the pipeline / open / drop / worker functions regenerated on every run)",
+    ("tools/skeleton.py + tools/rustlex.py (regenerated on every run: T0 covers the call / lock / condition skeleton of src/db.rs, src/log.rs and the "
+     "file-name tests - order of a fixed vocabulary of calls, lock-guard scopes, complete if/while/for headers, for every marker the chain of enclosing "
+     "block headers, the complete statement of selected markers (counter updates, loop results, Log::clean_logs count / drain, log sync flag), no unlock "
+     "and the lock file moved into the handle in open; everything else - the logic inside column.rs / table.rs / index.rs / btree, what is done with the "
+     "result of a pinned call unless its statement is pinned, early exits - is tied by correspondence and oracles; tools/t0_mutate.py: 102 edits)"),
     "correspondence harness /verif/harness (generators, canonicalisation, independent oracles)",
 ]
 
@@ -13,7 +17,7 @@ A_HASH = "A-hash: hash_key (salted Blake2b / SipHash) is injective on the keys o
 A_COMPRESS = "A-compress: decompress(compress v) = v for lz4 / snappy (exercised by every round trip in the runs)"
 P2_GAP = ("physical layers below the logical pipeline: for hash columns of every kind (plain, preimage, ref-counted) the index pages + byte-level value "
           "tables (single-slot values and multipart chains alike, stored counters with saturation) refine P1's logical table (Pdb/Props/Refine.lean "
-          "R1-R4, R3_composed_full; Pdb/Props/RefineRc.lean R5_rc_refines); btree / multitree columns and the WAL byte format are tied to P1 by "
+          "R1-R4, R3_composed_full; Pdb/Props/RefineRc.lean R5_rc_refines, conditional on the physical run returning ok within the physical limits: trajectory hypotheses, established by evaluation for the example histories incl. ref-counted multipart values; no totality theorem for the physical column; A-tail and the two C09 fixes are needed, findings F28 / F29 apply); btree / multitree columns and the WAL byte format are tied to P1 by "
           "correspondence only")
 
 P1_RULE = ("histories generated from one SplitMix64 state: commits of 1..6 ops over 1..3 columns and a small key pool "
@@ -69,21 +73,23 @@ PROPS = {
         "trusted": ["hook index.rs verif_find_entries (cfg pdb_verif)"],
     },
     "C02": {
-        "level_text": ("Lean theorems C02_recover_prefix / C02_crash_during_recovery / C02_continues: for every reachable state of the "
-                       "logical pipeline model (any history incl. earlier crashes), every number j of writes of the record being enacted "
-                       "that reached the tables and every number n >= flushed of log records that survived, recovery (replay of absolute "
-                       "after-images) yields exactly the specification of a prefix of the committed transactions containing everything "
-                       "synced, the invariant holds again, and replay absorbs any partially replayed state. Tied to the code by crash "
-                       "images of the real directory (step boundaries, cut unsynced log tails) reopened with the real code; the recovered "
-                       "prefix must be one the model allows. C02_real_recovery_eq / C02_recover_prefix_real / C02_real_recovery_restart (Props/C02Real): "
-                       "the recovery is no longer only postulated: a wrapper state tracks the log FILES (flush closes a file, enact consumes files oldest "
-                       "first, clean_logs reclaims fully enacted files oldest first, possibly interrupted; reclaimed numbers are reused), and the real "
-                       "algorithm of Db::open on the files a crash leaves (any directory order: sort by first record id, start at first id - 1, accept "
-                       "consecutive ids, re-apply enacted-but-retained records, stop at the first gap) yields exactly crashRecover's tables; "
-                       "C02_real_needs_oldest_first / C02_real_needs_first_id_order: with youngest-first reclaim or file-number order it does not; "
-                       "C02_real_is_wal_replay: this id logic is the byte-level replay of the C13 model on encoded well-formed records. The p1 runs "
-                       "emit the log files of every crash image (file numbers + record ids read from the image, incl. crashes inside clean_logs); "
-                       "the model must recognise them as a crash image of its file state and its real recovery must yield the observed prefix."),
+        "level_text": ("Lean theorems C02_recover_prefix / C02_crash_during_recovery / C02_continues: for every reachable state of the logical p"
+                       "ipeline model (any history incl. earlier crashes), every number j of writes of the record being enacted that reached the"
+                       " tables and every number n >= flushed of log records that survived, recovery (replay of absolute after-images) yields ex"
+                       "actly the specification of a prefix of the committed transactions containing everything synced, the invariant holds agai"
+                       "n, and replay absorbs any partially replayed state. Tied to the code by crash images of the real directory (step boundar"
+                       "ies, cut unsynced log tails) reopened with the real code; the recovered prefix must be one the model allows. C02_real_re"
+                       "covery_eq / C02_recover_prefix_real / C02_real_recovery_restart (Props/C02Real): the recovery is no longer only postulat"
+                       "ed: a wrapper state tracks the log FILES (flush closes a file, enact consumes files oldest first, clean_logs reclaims fu"
+                       "lly enacted files oldest first, possibly interrupted; reclaimed numbers are reused), and the real algorithm of Db::open "
+                       "on the files a crash leaves (any directory order: sort by first record id, start at first id - 1, accept consecutive ids"
+                       ", re-apply enacted-but-retained records, stop at the first gap) yields exactly crashRecover's tables; C02_real_needs_old"
+                       "est_first / C02_real_needs_first_id_order: with youngest-first reclaim or file-number order it does not; C02_real_is_wal"
+                       "_replay: this id logic is the byte-level replay of the C13 model on encoded well-formed records. The p1 runs emit the lo"
+                       "g files of every crash image (file numbers + record ids read from the image, incl. crashes inside clean_logs); the model"
+                       " must recognise them as a crash image of its file state and its real recovery must yield the observed prefix. About a th"
+                       "ird of the crash points of sync configurations are preceded by an inversion preamble so that ~20 % of the crash images h"
+                       "ave file-number order different from age order (p1r.files.inverted; with the seeded C02-c02a 7 of 250 quick cases fail)."),
         "level_note": ("Trusted: Lean kernel; P1 abstracts records to logical after-images (physical record layout, index/value tables "
                        "tied by correspondence only); crash points inside a single file operation are represented by (j, n) in the model "
                        "and sampled at step boundaries + log-tail cuts on the implementation; page-granular power loss is C12; damaged "
@@ -95,10 +101,13 @@ PROPS = {
         "assumptions": [A_HASH, A_COMPRESS, P2_GAP, "crash instants on the implementation: step boundaries of the stepping API with the unsynced log tail cut at a seeded length"],
     },
     "C03": {
-        "level_text": ("Lean theorems C03_drop_persists (for every reachable state, drop = the drain sequence of kill_logs, then open: the "
-                       "tables hold the specification of ALL accepted transactions, overlays and queues are empty, reads return it) and "
-                       "C03_synced_survive (after any crash the recovered prefix contains every transaction whose record was flushed). "
-                       "Tied to the code by drop/reopen and crash images at arbitrary pipeline positions of generated histories."),
+        "level_text": ("Lean theorems C03_drop_persists (for every reachable state, drop = the drain sequence of kill_logs, then open: the table"
+                       "s hold the specification of ALL accepted transactions, overlays and queues are empty, reads return it) and C03_synced_su"
+                       "rvive (after any crash the recovered prefix contains every transaction whose record was flushed). Tied to the code by dr"
+                       "op/reopen and crash images at arbitrary pipeline positions of generated histories. C03_clean_drop_real (Props/C02Real): "
+                       "for every reachable wrapper state the real recovery algorithm run on the tables and log files a CLEAN drop (dropSeq = th"
+                       "e file side of kill_logs) leaves, in any directory order, yields cleanReopen's tables = the specification of all accepte"
+                       "d transactions (the drop enacts at most three files; the rest is replayed by the next open); C03_clean_drop_state."),
         "level_note": ("Trusted: Lean kernel; P1 abstraction (see C02); the real drop may leave flushed log files to be replayed by the next "
                        "open, which the model folds into one step; drops WITH background threads (deep queues, many pending log files, "
                        "shutdown at a random moment) are exercised by the c15 scenarios, whose oracle checks that every Ok-committed key is "
@@ -123,37 +132,40 @@ PROPS = {
         "assumptions": [A_HASH, A_COMPRESS, P2_GAP, "preimage contract: every Set on a preimage / rc column carries valueOf(key)"],
     },
     "C08": {
-        "level_text": ("Lean theorems C08_rejected_noop (a commit that returns an error returns the state unchanged), C08_no_trace "
-                       "(deleting all rejected commits from any history - with any further commits, pipeline progress, restarts, crashes - "
-                       "yields the same state), C08_invalid_rejected, C08_validation_matrix / C08_validateTx (model of "
-                       "DbInner::validate_change: exactly the listed column/operation combinations are rejected, wherever they sit). "
-                       "Tied to the code by transactions with an invalid operation at a random position over columns of every kind, "
-                       "observing the full public state before/after, after drain and after reopen, and by the exhaustive single-operation "
-                       "matrix compared with the model."
-                       " Database level (C08_db_*, model Pdb.MultiTree.TDb = commit_changes + commit_raw over any number of multitree and key-va"
-                       "lue columns with claimed slots, free stack, to_dereference counters, queue / overlay, commit id counter, stored backgrou"
-                       "nd error; the multitree part is what the c10 driver runs): C08_db_rejected_no_trace (any call that does not return ok re"
-                       "turns a state EQUAL in all components), C08_db_invalid_rejected (an operation validate_change refuses, or on a missing c"
-                       "olumn, at ANY position), C08_db_bgerr_refused, C08_db_accepted_iff (after validation the assembly cannot fail), C08_db_n"
-                       "o_trace_history, C08_db_single_column (ties it to TState.commit of C10), and the negative witnesses C08_db_F1_order_leav"
-                       "es_trace / C08_db_F23_order_leaves_trace (validation inside the loop / background error tested after the claims: a trace"
-                       " stays)."),
-        "level_note": ("Trusted: Lean kernel; the validation model is hand-written (tied by the exhaustive matrix run); I/O errors after "
-                       "validation (claiming slots, reading a tree root) are outside the property's list and the model."
-                       " errors after validation: I/O errors are outside the property's list (C16); the two schedule-dependent non-I/O causes (F"
-                       "43 root read twice, F44 background error stored during assembly) are reproduced by c08 with yield hooks and cannot be ex"
-                       "pressed in the one-step model; order validate / bg_err / claim tied to the source by the T0 obligations commitChanges_va"
-                       "lidate_before_claim, commitChanges_bgerr_before_claim."),
+        "level_text": ("Lean theorems C08_rejected_noop (a commit that returns an error returns the state unchanged), C08_no_trace (deleting all"
+                       " rejected commits from any history - with any further commits, pipeline progress, restarts, crashes - yields the same st"
+                       "ate), C08_invalid_rejected, C08_validation_matrix / C08_validateTx (model of DbInner::validate_change: exactly the liste"
+                       "d column/operation combinations are rejected, wherever they sit). Tied to the code by transactions with an invalid opera"
+                       "tion at a random position over columns of every kind, observing the full public state before/after, after drain and afte"
+                       "r reopen, and by the exhaustive single-operation matrix compared with the model. Database level (C08_db_*, model Pdb.Mul"
+                       "tiTree.TDb = commit_changes + commit_raw_checked over any number of multitree and key-value columns with claimed slots, "
+                       "free stack, to_dereference counters, queue / overlay, commit id counter, stored background error; the multitree part is "
+                       "what the c10 driver runs): C08_db_rejected_no_trace (any call that does not return ok returns a state EQUAL in all compo"
+                       "nents), C08_db_invalid_rejected (an operation validate_change refuses, or on a missing column, at ANY position), C08_db_"
+                       "bgerr_refused, C08_db_accepted_iff (after validation the assembly cannot fail), C08_db_no_trace_history, C08_db_single_c"
+                       "olumn (ties it to TState.commit of C10), and the negative witnesses C08_db_F1_order_leaves_trace / C08_db_F23_order_leav"
+                       "es_trace (validation inside the loop / background error tested after the claims: a trace stays). C08_db_concurrent_error"
+                       " (a background error stored WHILE commit_changes runs: the call returns and leaves what the same commit made just before"
+                       " the error does) and the negative witness C08_db_F44_order_leaves_trace (second bg_err test in commit_raw: refused with "
+                       "the claims kept; fixed e93af5a)."),
+        "level_note": ("Trusted: Lean kernel; the validation model is hand-written (tied by the exhaustive matrix run); I/O errors after validat"
+                       "ion (claiming slots, reading a tree root) are outside the property's list and the model. errors after validation: I/O er"
+                       "rors are outside the property's list (C16); the two schedule-dependent non-I/O causes were findings and are fixed: F43 ("
+                       "485fed3, asmOp follows the fixed code) and F44 (e93af5a; TDb.commitWin / commitConc / commitF44 model the window); both "
+                       "are exercised by c08 with yield hooks and REQUIRED to behave as fixed; order validate / bg_err / claim tied to the sourc"
+                       "e by the T0 obligations commitChanges_validate_before_claim, commitChanges_bgerr_before_claim. Further T0 obligations: c"
+                       "ommitChanges_single_bgerr_test, writePlan_three_passes."),
         "lean": ["Pdb.Props.C08", "Pdb.Proofs.Order"],
         "harness": [{"cmd": "c08", "quick": 60, "thorough": 3000}, {"cmd": "p1", "quick": 100, "thorough": 5000}],
-        "rule": ("c08: 5 columns (plain, rc, btree, multitree rc, multitree append-only), 10..30 transactions of 1..5 valid operations, "
-                 "half of them with one invalid operation inserted at a random position (first / middle / last measured), plus the "
-                 "exhaustive column-kind x operation-kind matrix incl. fan-out 255/256 and missing roots; p1: histories with ~3% invalid "
-                 "references; distinct by SHA-1 of the op list; non-trivial = at least one transaction was rejected"
-                 "; c08 now has 10 columns (adds preimage without rc: hash and btree), a CONTENT oracle (plain maps of values / counts / t"
-                 "ree roots with fan-out / entry counts produced by the accepted commits) compared line by line with every drained and eve"
-                 "ry reopened state, the background-error refusal phase, and the yield-hook scenarios F43 (fixed 485fed3: must now be acce"
-                 "pted) / F44"),
+        "rule": ("c08: 5 columns (plain, rc, btree, multitree rc, multitree append-only), 10..30 transactions of 1..5 valid operations, ha"
+                 "lf of them with one invalid operation inserted at a random position (first / middle / last measured), plus the exhaustiv"
+                 "e column-kind x operation-kind matrix incl. fan-out 255/256 and missing roots; p1: histories with ~3% invalid references"
+                 "; distinct by SHA-1 of the op list; non-trivial = at least one transaction was rejected; c08 now has 10 columns (adds pr"
+                 "eimage without rc: hash and btree), a CONTENT oracle (plain maps of values / counts / tree roots with fan-out / entry co"
+                 "unts produced by the accepted commits) compared line by line with every drained and every reopened state, the background"
+                 "-error refusal phase, and the yield-hook scenarios F43 (fixed 485fed3: must now be accepted) / F44 (fixed: must be accep"
+                 "ted and queued, nothing leaked after process + drop + reopen; persistence variant with a queued commit in front: entry c"
+                 "ounts after the reopen = the accepted commits')"),
         "assumptions": [A_HASH, P2_GAP],
     },
     "C16": {
@@ -196,12 +208,18 @@ PROPS = {
                        "l: for ALL byte strings and file sets, in every configuration without a table file above MAX_INDEX_BITS (Cfg.Sane), none"
                        " of the three occurs; C13_fuel_adequate: `.outOfFuel` never, without any hypothesis; the apply pass is modelled on the b"
                        "ytes (second read) and proved to succeed and to do exactly one effect per validated action (enactPass_of_validatePass). "
-                       "All replay theorems are about replayOpen, i.e. with the start id Db::open derives from the first header of the oldest su"
-                       "rviving file; the prefix statement is proved under exactly two extra hypotheses (OldestSurvives = not F3c, AppliedIntact"
-                       " = not F3b) with one proved counterexample for each (C13_prefix_counterexample_F3c / _F3b). The model is tied to the cod"
-                       "e by running Db::open on damaged copies of real log directories and comparing last_enacted, the table configuration AND "
-                       "the table contents after replay (all non-empty index entries, all probed value slots) with the compiled model, plus an i"
-                       "ndependent prefix / table-configuration oracle."),
+                       "Panic sites V1..V7, E1..E10 (table in Pdb/Model/Wal.lean, line numbers of /repo 485fed3); E10 = the unchecked TableFile:"
+                       ":write_at of ValueTable::enact_plan, whose only guard for a plain entry is the 'Bad entry size' check of the VALIDATION "
+                       "pass (C13_value_write_inside_slot; growth loop modelled as growLoop). `.applyFailed` covers errors caused by the record "
+                       "bytes, NOT resource failures of checksum-valid records (40..49-bit table ids: set_len / mmap; huge slot index: grow loop"
+                       "), which are not modelled. The c13 run reports how much the known findings mask (mask.images.*, verdict.suppressed_by.*:"
+                       " 2.6 % / 14.8 % of the images of seeds 1 / 2, all non-prefix verdicts lie there). All replay theorems are about replayOp"
+                       "en, i.e. with the start id Db::open derives from the first header of the oldest surviving file; the prefix statement is "
+                       "proved under exactly two extra hypotheses (OldestSurvives = not F3c, AppliedIntact = not F3b) with one proved counterexa"
+                       "mple for each (C13_prefix_counterexample_F3c / _F3b). The model is tied to the code by running Db::open on damaged copie"
+                       "s of real log directories and comparing last_enacted, the table configuration AND the table contents after replay (all n"
+                       "on-empty index entries, all probed value slots) with the compiled model, plus an independent prefix / table-configuratio"
+                       "n oracle."),
         "level_note": ("Trusted: Lean kernel; CRC-32 as a function of the bytes (A-crc); hooks verif_last_enacted / verif_table_cfg / verif_dump"
                        " / verif_table_state / verif_table_entry; the audit that the panic-site table in the header of Pdb/Model/Wal.lean is com"
                        "plete (each listed site is a branch of the model, the table is the audited claim); Cfg.Sane is an assumption on the tabl"
@@ -254,44 +272,49 @@ PROPS = {
         "trusted": ["hooks Db::verif_table_state / verif_table_entry, verif::{compress, hash_key, entry_sizes} (cfg pdb_verif)"],
     },
     "C10": {
-        "level_text": ("Lean theorems over the multitree model (Pdb/Model/MultiTree.lean): C10_unpack_pack_thm / C10_pack_256_wrong / "
-                       "C10_packed_size (node packing; the size expression is regenerated from column.rs), C10_RcInv (every legal history of "
-                       "InsertTree / ReferenceTree / DereferenceTree, any tree shape and any sharing: count(a) = number of references from "
-                       "present nodes and roots with multiplicity, no dangling reference, children older than parents), C10_read_back (an "
-                       "accepted insertion reads back exactly, Existing children resolve to the subtrees they named, other trees unchanged), "
-                       "C10_reject_unrepresentable (> 255 children rejected, everything else accepted), "
-                       "C10_deref_frees_exactly_unreachable (after DereferenceTree a node is present iff reachable in the old heap from the "
-                       "remaining roots; survivors and surviving trees unchanged; the walk never fails nor runs out of fuel), "
-                       "C10_all_deref_empty (no root left => zero entries), C10_variant_rules, and C10_pipeline_refines / "
-                       "C10_all_deref_empty_pipeline: for every schedule of commits and process steps of the pipeline model (addresses "
-                       "claimed and overlay filled at commit, table effects in process_commits) every live tree is readable through the "
-                       "overlays exactly as in the atomic heap, and the drained tables equal the atomic heap. The model is tied to the real "
-                       "Db by differential runs; an independent logical forest with multiset reference counting checks the implementation."
-                       " Transactions and reuse (second half of Props/C10.lean, model TState/TDb = what the c10 driver runs: commit_changes with"
-                       " several operations, LIFO free-entry stack, planning order of write_plan): C10T_commit_atomic (an error leaves the colum"
-                       "n state equal; accepted iff every operation validates), C10T_tx_in_order (planning order = order given up to the order o"
-                       "f the root list, for accepted transactions within DerefApart), C10T_tx_RcInv (every legal transaction preserves RcInv wi"
-                       "th new nodes at REUSED addresses, never fails when processed, frame), C10T_read_back / _insert / _pipeline (every tree i"
-                       "nserted by a legal transaction is stored exactly as supplied, Existing children are the addresses named; readable throug"
-                       "h the commit overlay as soon as the commit returns), C10T_pipeline_refines (every legal schedule of transaction commits "
-                       "and process steps with address reuse: the atomic heap satisfies RcInv, all its roots and nodes are readable through the "
-                       "overlays, drained tables = atomic heap, free stack / claimed slots / table nodes partition the addresses below the fill "
-                       "mark), C10T_all_deref_reclaimed (all trees dereferenced and drained: no node, no count, zero entries, every address back"
-                       " on the free stack exactly once), C10T_rc_tables_refine (current + queued ref-count tables refine the single count map a"
-                       "cross growth, reindex passes and drops); witnesses C10T_deref_ref_same_tx_keeps (admissible), C10T_F41_plain / _rc / _in"
-                       "_order_reading (finding F41), C10T_insert_live_key_leaks, C10T_dangling_existing_accepted (outside the quantifier, accep"
-                       "ted by the Db)."),
-        "level_note": ("T2 for the node forest: at every quiescent point (enact to quiescence, drain points, reopen) the hook "
-                       "Db::verif_multitree_dump dumps live node slots with their children, roots, ref-count tables and cache; the LEAN checker "
-                       "(driver command t2rc, Pdb/Model/DumpCheckRc.lean) evaluates RcInv on it with a rank witness for acyclicity, proved sound "
-                       "(C14DumpRc_sound: no dangling child, count = number of (parent, position) references with absent = exactly one, every "
-                       "slot reachable, acyclic) and equivalent to the rank-generalised model invariant InvR on the rebuilt heap "
-                       "(C14DumpRc_core_iff_model); C10R_of_Inv / C10R_dereference / C10R_insert_reuse: Inv implies InvR and the operations "
-                       "preserve InvR with new nodes at arbitrary reused addresses. "
-                       "Trusted: Lean kernel; abstract (never reused) addresses in the model vs. the free-entry stack of the implementation; "
-                       "value-table slot chains / ref-count table pages / WAL records below the heap model are tied by correspondence only; "
-                       "restarts are clean reopens (a run of process steps in the model), crash recovery of multitree columns is not covered "
-                       "here; A-hash for root keys."),
+        "level_text": ("Lean theorems over the multitree model (Pdb/Model/MultiTree.lean): C10_unpack_pack_thm / C10_pack_256_wrong / C10_packed"
+                       "_size (node packing; the size expression is regenerated from column.rs), C10_RcInv (every legal history of InsertTree / "
+                       "ReferenceTree / DereferenceTree, any tree shape and any sharing: count(a) = number of references from present nodes and "
+                       "roots with multiplicity, no dangling reference, children older than parents), C10_read_back (an accepted insertion reads"
+                       " back exactly, Existing children resolve to the subtrees they named, other trees unchanged), C10_reject_unrepresentable "
+                       "(> 255 children rejected, everything else accepted), C10_deref_frees_exactly_unreachable (after DereferenceTree a node i"
+                       "s present iff reachable in the old heap from the remaining roots; survivors and surviving trees unchanged; the walk neve"
+                       "r fails nor runs out of fuel), C10_all_deref_empty (no root left => zero entries), C10_variant_rules, and C10_pipeline_r"
+                       "efines / C10_all_deref_empty_pipeline: for every schedule of commits and process steps of the pipeline model (addresses "
+                       "claimed and overlay filled at commit, table effects in process_commits) every live tree is readable through the overlays"
+                       " exactly as in the atomic heap, and the drained tables equal the atomic heap. The model is tied to the real Db by differ"
+                       "ential runs; an independent logical forest with multiset reference counting checks the implementation. Transactions and "
+                       "reuse (second half of Props/C10.lean, model TState/TDb = what the c10 driver runs: commit_changes with several operation"
+                       "s, LIFO free-entry stack, planning order of the FIXED write_plan: root changes that are not postponed, node changes, roo"
+                       "t Sets of keys dereferenced in the same change set): C10T_commit_atomic (an error leaves the column state equal; accepte"
+                       "d iff every operation validates), C10T_tx_in_order (planning order = order given up to the order of the root list, for a"
+                       "ccepted transactions within DerefApart), C10T_tx_RcInv (every legal transaction preserves RcInv with new nodes at REUSED"
+                       " addresses, never fails when processed, frame), C10T_read_back / _insert / _pipeline (every tree inserted by a legal tra"
+                       "nsaction is stored exactly as supplied, Existing children are the addresses named; readable through the commit overlay a"
+                       "s soon as the commit returns), C10T_pipeline_refines (every legal schedule of transaction commits and process steps with"
+                       " address reuse: the atomic heap satisfies RcInv, all its roots and nodes are readable through the overlays, drained tabl"
+                       "es = atomic heap, free stack / claimed slots / table nodes partition the addresses below the fill mark), C10T_all_deref_"
+                       "reclaimed (all trees dereferenced and drained: no node, no count, zero entries, every address back on the free stack exa"
+                       "ctly once), C10T_rc_tables_refine (current + queued ref-count tables refine the single count map across growth, reindex "
+                       "passes and drops); C10T_replace_tree / _pipeline ([DereferenceTree k, InsertTree k t'] reads back exactly t', is inside "
+                       "DerefApart, equals the order given, keeps RcInv; nothing left after a final dereference); witnesses C10T_deref_ref_same_"
+                       "tx_keeps, C10T_deref_insert_deref_keeps (admissible, outside DerefApart), C10T_F41_plain / _rc / _in_order_reading (find"
+                       "ing F41, fixed a08ad55: what the UNFIXED planning order did), C10T_insert_live_key_leaks, C10T_dangling_existing_accepte"
+                       "d (outside the quantifier, accepted by the Db)."),
+        "level_note": ("T2 for the node forest: at every quiescent point (enact to quiescence, drain points, reopen) the hook Db::verif_multitre"
+                       "e_dump dumps live node slots with their children, roots, ref-count tables and cache; the LEAN checker (driver command t2"
+                       "rc, Pdb/Model/DumpCheckRc.lean) evaluates RcInv on it with a rank witness for acyclicity, proved sound (C14DumpRc_sound:"
+                       " no dangling child, count = number of (parent, position) references with absent = exactly one, every slot reachable, acy"
+                       "clic) and equivalent to the rank-generalised model invariant InvR on the rebuilt heap (C14DumpRc_core_iff_model); C10R_o"
+                       "f_Inv / C10R_dereference / C10R_insert_reuse: Inv implies InvR and the operations preserve InvR with new nodes at arbitr"
+                       "ary reused addresses. Trusted: Lean kernel; one abstract address space with a LIFO free stack (the implementation has on"
+                       "e stack per size tier, shared with root value slots); hypotheses of the transaction theorems: DerefApart (in one transac"
+                       "tion no ReferenceTree k after a DereferenceTree k and no DereferenceTree k after an InsertTree k; an InsertTree k after "
+                       "a DereferenceTree k - replacing a tree - is inside), LegalInOrder (distinct live root keys, Existing children present), "
+                       "DerefLive; what happens outside them is stated by the witnesses; ref-count table growth exercised through the hook verif"
+                       "::set_min_ref_count_bits (2..16 chunks); value-table slot chains / ref-count table pages / WAL records below the heap mo"
+                       "del are tied by correspondence only; restarts are clean reopens (a run of process steps in the model), crash recovery of"
+                       " multitree columns is not covered here; A-hash for root keys."),
         "lean": ["Pdb.Props.C10", "Pdb.Props.C14DumpRc"],
         "harness": [{"cmd": "c10", "quick": 400, "thorough": 6000, "max_search": 20000}],
         "rule": ("histories from SplitMix64 states on a Db with 1..3 multitree columns (variants append_only / ref_counted roots / plain) "
@@ -304,11 +327,12 @@ PROPS = {
                  "tries; mass-sharing cases (1 in 6) and 1/8 of the others start the ref-count table with 2..16 chunks (hook) so that it g"
                  "rows up to 5 times: dumps with queued tables, reindex passes to completion; at the end every tree is dereferenced (sever"
                  "al roots per transaction) and every counting column must hold zero entries; then one scenario per case (seed % 8): rejec"
-                 "ted [InsertTree k, ReferenceTree k] on plain, [DereferenceTree k, InsertTree k] (F41), [DereferenceTree k, ReferenceTree"
-                 " k] on count 1, InsertTree on a live key / twice in one transaction, Existing at a freed address, stored background erro"
-                 "r; seed % 50 == 7: chains of 1500..3000 and 13000..20000 levels dereferenced in a child process (F42); multitree + compr"
-                 "ession is refused by Options::is_valid (checked, seed % 50 == 3); distinct = SHA-1 of the op list; non-trivial = shared "
-                 "nodes between trees or freed nodes"),
+                 "ted [InsertTree k, ReferenceTree k] on plain, [DereferenceTree k, InsertTree k] (must read back the new tree, exact entr"
+                 "y counts, also after reopen, zero after the final dereference; seed % 8 = 7 with a node shared with a third tree), [Dere"
+                 "ferenceTree k, ReferenceTree k] on count 1, InsertTree on a live key / twice in one transaction, Existing at a freed add"
+                 "ress, stored background error; seed % 50 == 7: chains of 1500..3000 and 13000..20000 levels dereferenced in a child proc"
+                 "ess (must succeed on a 2 MiB stack; F42 fixed 8de4f00); multitree + compression is refused by Options::is_valid (checked"
+                 ", seed % 50 == 3); distinct = SHA-1 of the op list; non-trivial = shared nodes between trees or freed nodes"),
         "assumptions": [A_HASH, "live root keys are distinct and Existing addresses name nodes of live trees (hypotheses of the theorems, "
                         "respected by the generator)", P2_GAP],
     },
@@ -354,7 +378,7 @@ PROPS = {
         "level_text": ("Lean theorems C20_recover_key_roundtrip (every 32-byte hashed key, every address, index sizes 16..49: the key "
                        "iter_index rebuilds from page number + partial key + stored tail is the key the entry was built from; shift "
                        "expressions regenerated from src/index.rs on every run), C20_dest_eq_source / _user / _rc / _counts_one / "
-                       "C20_same_keys / C20_same_value (for EVERY source column state - any contents, counts 1 <= n < u32::MAX, entries "
+                       "C20_same_keys / C20_same_value (for every WELL-FORMED source column state (SrcCol.WF: keyed by key, so stale index entries - finding F26 - are not representable) - any contents, counts 1 <= n < u32::MAX, entries "
                        "spread over the newest and queued older index tables - and every destination kind, the re-committed walk leaves "
                        "exactly the source keys with the same values, the same counts on a reference-counted destination and count 1 "
                        "otherwise), C20_iter_complete (the walk reports every live key exactly once), C20_selection / "
@@ -534,31 +558,33 @@ PROPS = {
                     "yield points process_commits.before_deferral_check / .deferred (fixes/f-c11/hook-c11.diff)"],
     },
     "C04": {
-        "level_text": ("Lean theorems C04_iter_spec / C04_next_spec / C04_prev_spec / C04_seek_spec / C04_position: for every sequence of "
-                       "iterator calls (seek, seek_to_first, seek_to_last, next, prev with direction changes), with the commit overlay and the "
-                       "backend changing arbitrarily between calls (commits, stage moves), every answer of the iterator merge machine "
-                       "(iter_inner, pending backend item, re-seek on record-id change, btree_next / btree_prev) is the answer the property "
-                       "demands on the merged map at the time of the call (seek k: min >= k / max <= k; after K: min > K / max < K; Start: "
-                       "first / nothing; End: last / nothing); C04_get_spec: point reads are lookups in the same map. "
-                       "C04_separator_roundtrip: key-length encoding incl. the 254/255 escape for all lengths < 2^32. C04_sort_stable / "
-                       "C04_prepare_spec: stable sort by key + last operation per key equals the transaction's effect. C04_change_refines / "
-                       "C04_tree_inv: every transaction applied by the model's write_plan (insert, replace, remove with split / both rotations "
-                       "/ merge / root growth and removal, every depth) to a tree satisfying TreeInv never reaches a corrupt-tree state, "
-                       "enumerates specApply of the old enumeration, and TreeInv (in-order keys strictly increasing, every leaf at the recorded "
-                       "depth, children = separators + 1, occupancy <= ORDER and >= ORDER/2 for non-root nodes) holds again. The iterator model "
-                       "is of the patched code (fix-c04-seek-to-last, fix-c04-start-end); C04_F5a_counterexample / C04_F5b_counterexample are "
-                       "the negation witnesses of the unpatched code. COMPOSITION (Props/C04c): for the executable pipeline the driver runs "
-                       "(Pdb/Model/BTreePipe.lean Drv: commit overlay copy_to_overlay / clean_overlay, commit queue, last record id, batched "
-                       "write_plan, iterator machine on the BTreeIterState node-stack cursor, Node::get) and EVERY history of commits, process / "
-                       "flush / enact / clean / reopen, point reads and iterator calls (iterator kept open): C04_pipeline_merged (merged overlay "
-                       "(toList tree) = specApply of all accepted transactions, TreeInv, never stuck), C04_pipeline_iter_spec (every answer = "
-                       "abstract cursor on the sorted map of the LATEST committed state from the logical position), C04_pipeline_call_spec / "
-                       "_next_spec / _prev_spec (min / max form), C04_pipeline_get_spec (point read = most recent committed write). Reference-"
-                       "counted btree columns (Props/C04r): C04r_pipeline_spec (all histories / call sequences answered on the VISIBLE map = "
-                       "processed cells overridden by queued Sets), C04r_cells (cells = P1 spec applyCell .rc), C04r_live_visible, C04r_exact "
-                       "(empty queue: shown iff count > 0), C04r_value; C04r_lag_witness: a committed Dereference to count 0 is NOT seen before "
-                       "its commit is processed (the C04 clause 'latest committed state' fails on rc columns; documented C07 lag; replayed on "
-                       "the crate). Node bytes (Props/C04d): C04_node_roundtrip / _layout / _decode_total for write_node_plan / Node::from_encoded."),
+        "level_text": ("Lean theorems C04_iter_spec / C04_next_spec / C04_prev_spec / C04_seek_spec / C04_position: for every sequence of iterat"
+                       "or calls (seek, seek_to_first, seek_to_last, next, prev with direction changes), with the commit overlay and the backend"
+                       " changing arbitrarily between calls (commits, stage moves), every answer of the iterator merge machine (iter_inner, pend"
+                       "ing backend item, re-seek on record-id change, btree_next / btree_prev) is the answer the property demands on the merged"
+                       " map at the time of the call (seek k: min >= k / max <= k; after K: min > K / max < K; Start: first / nothing; End: last"
+                       " / nothing); C04_get_spec: point reads are lookups in the same map. C04_separator_roundtrip: key-length encoding incl. t"
+                       "he 254/255 escape for all lengths < 2^32. C04_sort_stable / C04_prepare_spec: stable sort by key + last operation per ke"
+                       "y equals the transaction's effect. C04_change_refines / C04_tree_inv: every transaction applied by the model's write_pla"
+                       "n (insert, replace, remove with split / both rotations / merge / root growth and removal, every depth) to a tree satisfy"
+                       "ing TreeInv never reaches a corrupt-tree state, enumerates specApply of the old enumeration, and TreeInv (in-order keys "
+                       "strictly increasing, every leaf at the recorded depth, children = separators + 1, occupancy <= ORDER and >= ORDER/2 for "
+                       "non-root nodes) holds again. The iterator model is of the patched code (fix-c04-seek-to-last, fix-c04-start-end); C04_F5"
+                       "a_counterexample / C04_F5b_counterexample are the negation witnesses of the unpatched code. COMPOSITION (Props/C04c): fo"
+                       "r the executable pipeline the driver runs (Pdb/Model/BTreePipe.lean Drv: commit overlay copy_to_overlay / clean_overlay,"
+                       " commit queue, last record id, batched write_plan, iterator machine on the BTreeIterState node-stack cursor, Node::get) "
+                       "and EVERY history of commits, process / flush / enact / clean / reopen, point reads and iterator calls (iterator kept op"
+                       "en): C04_pipeline_merged (merged overlay (toList tree) = specApply of all accepted transactions, TreeInv, never stuck), "
+                       "C04_pipeline_iter_spec (every answer = abstract cursor on the sorted map of the LATEST committed state from the logical "
+                       "position), C04_pipeline_call_spec / _next_spec / _prev_spec (min / max form), C04_pipeline_get_spec (point read = most r"
+                       "ecent committed write). Reference-counted btree columns (Props/C04r): C04r_pipeline_spec (all histories / call sequences"
+                       " answered on the VISIBLE map = processed cells overridden by queued Sets), C04r_cells (cells = P1 spec applyCell .rc), C"
+                       "04r_live_visible, C04r_exact (empty queue: shown iff count > 0), C04r_value; C04r_lag_witness: a committed Dereference t"
+                       "o count 0 is NOT seen before its commit is processed (the C04 clause 'latest committed state' fails on rc columns; docum"
+                       "ented C07 lag; replayed on the crate). Node bytes (Props/C04d): C04_node_roundtrip / _layout / _decode_total for write_n"
+                       "ode_plan / Node::from_encoded. Node bytes (Props/C04d): C04_node_roundtrip / _layout / _decode_total / _reencodes for wr"
+                       "ite_node_plan / Node::from_encoded; the driver runs decoder AND encoder on the real entry bytes (`enc=same` expected for"
+                       " every real node; all nodes of dumps of at most 64 nodes / 32 KiB are sent)."),
         "level_note": ("Trusted: Lean kernel; the rule 'a record that writes a value table of the column moves last_record_id' of the "
                        "pipeline model is tied by correspondence only (model driven by the same commits / stage steps / iterator calls as the "
                        "real Db, also the unpatched model against the unpatched crate: 0 disagreements); the literal stack cursor is ALSO run "
@@ -666,28 +692,30 @@ PROPS = {
     "C09": {
         "lean": ["Pdb.Props.C09", "Pdb.Props.C09Total", "Pdb.Props.C09F24", "Pdb.Props.C09Replay", "Pdb.Proofs.GenBits", "Pdb.Props.Refine"],
         "harness": [{"cmd": "c09", "quick": 48, "thorough": 600, "timeout": 3000}],
-        "level_text": ("Lean theorems C09_index_inv_preserved / C09_lookup_latest / C09_no_panic / C09_collision_individual over all histories (set, del, "
-                       "reindex batch, enacted drop, reopen/recovery, relaunched growth) of the index-layer model (current table + queue of older tables, "
-                       "pages of 64 entries with the generated bit functions, page search from the C19 model, value slots with 26-byte tails, per-tier "
-                       "free lists); step theorems C09_write_preserves / C09_batch_no_loss / C09_drop_no_loss / C09_growth_recover / "
-                       "C09_growth_redetected for any configuration; C09_lookup_latest_full_false: closed witness that the code before fixes 3f608ba / "
-                       "c9ce868 loses a key. TOTALITY (Props/C09Total): the run theorems are conditional on the model's trajectory (runA = ok, "
-                       "AllBounded); C09_run_total derives both from hypotheses on the INPUT alone (InputOK: A-tail, 16 <= b0 <= K, K + relaunches "
-                       "<= 49, slots used < 2^(K+6), at most 64 set OPERATIONS per K-bit class of key prefixes), hence no panic, no loop-fuel "
-                       "exhaustion (Res.diverge), < 50 index bits, < 2^56 slots; restated property theorems C09_lookup_latest_total / "
-                       "C09_index_inv_preserved_total / C09_collision_individual_total / C09_no_diverge_total / C14_index_inv_preserved_total. The "
-                       "bound is on operations, not keys, because entries whose slot was freed or re-used are copied by reindex like live ones "
-                       "(finding F28). NEGATION WITNESSES (Props/C09F24): C09_full_statement_false_65 / C09_no_total_65 / C09_65_never_settles (65 "
-                       "keys sharing the 50 index-visible bits: at least 16 + n bits after n reindex passes, the queue of older tables never "
-                       "empties, no successful bounded run with 34 passes), C09_full_statement_false_twin (two keys with the same stored tail: a "
-                       "stale entry resolves to the other key's value; finding F29). REPLAY (Props/C09Replay, model Pdb/Model/IndexReplay.lean: "
-                       "records = index-entry / value-slot after-images + DropTable over (current bits, queue, contents)): C09_replay_absorbs / "
-                       "C09_replayRecords_absorbs (records r_i..r_n replayed over the state after r_1..r_m, any op-level split, give the state "
-                       "after r_1..r_n, incl. writes into a table dropped by a later record, DropTable of a table already gone, growth records "
-                       "whose table already exists), C09_replay_idempotent, C09_replay_skips_dropped, tie to the index model "
-                       "(C09_replay_reindex_is_trigger, C09_replay_drop_is_enactDrop). Model tied by differential runs "
-                       "(set/del/get/stat/slots/crashto) and a BTreeMap + prefix oracle with crash images at every growth phase, incl. images "
-                       "with 1..3 enacted-but-unreclaimed log files (counters crash.retained_enacted_*) and a half-enacted growth record."),
+        "level_text": ("Lean theorems C09_index_inv_preserved / C09_lookup_latest / C09_no_panic / C09_collision_individual over all histories ("
+                       "set, del, reindex batch, enacted drop, reopen/recovery, relaunched growth) of the index-layer model (current table + que"
+                       "ue of older tables, pages of 64 entries with the generated bit functions, page search from the C19 model, value slots wi"
+                       "th 26-byte tails, per-tier free lists); step theorems C09_write_preserves / C09_batch_no_loss / C09_drop_no_loss / C09_g"
+                       "rowth_recover / C09_growth_redetected for any configuration; C09_lookup_latest_full_false: closed witness that the code "
+                       "before fixes 3f608ba / c9ce868 loses a key. TOTALITY (Props/C09Total): the run theorems are conditional on the model's t"
+                       "rajectory (runA = ok, AllBounded); C09_run_total derives both from hypotheses on the INPUT alone (InputOK: A-tail, 16 <="
+                       " b0 <= K, K + relaunches <= 49, slots used < 2^(K+6), at most 64 INDEX-INSERTING set operations per K-bit class of key p"
+                       "refixes (nIns: the key is absent or holds a value of another size tier in the tier specification of the preceding action"
+                       "s; same-tier overwrites are free; InputOK_of_old: the former bound on all set operations implies it)), hence no panic, n"
+                       "o loop-fuel exhaustion (Res.diverge), < 50 index bits, < 2^56 slots; restated property theorems C09_lookup_latest_total "
+                       "/ C09_index_inv_preserved_total / C09_collision_individual_total / C09_no_diverge_total / C14_index_inv_preserved_total."
+                       " The bound is on index insertions, not keys, because entries whose slot was freed or re-used are copied by reindex like "
+                       "live ones (finding F28). NEGATION WITNESSES (Props/C09F24): C09_full_statement_false_65 / C09_no_total_65 / C09_65_never"
+                       "_settles (65 keys sharing the 50 index-visible bits: at least 16 + n bits after n reindex passes, the queue of older tab"
+                       "les never empties, no successful bounded run with 34 passes), C09_full_statement_false_twin (two keys with the same stor"
+                       "ed tail: a stale entry resolves to the other key's value; finding F29). REPLAY (Props/C09Replay, model Pdb/Model/IndexRe"
+                       "play.lean: records = index-entry / value-slot after-images + DropTable over (current bits, queue, contents)): C09_replay"
+                       "_absorbs / C09_replayRecords_absorbs (records r_i..r_n replayed over the state after r_1..r_m, any op-level split, give "
+                       "the state after r_1..r_n, incl. writes into a table dropped by a later record, DropTable of a table already gone, growth"
+                       " records whose table already exists), C09_replay_idempotent, C09_replay_skips_dropped, tie to the index model (C09_repla"
+                       "y_reindex_is_trigger, C09_replay_drop_is_enactDrop). Model tied by differential runs (set/del/get/stat/slots/crashto) an"
+                       "d a BTreeMap + prefix oracle with crash images at every growth phase, incl. images with 1..3 enacted-but-unreclaimed log"
+                       " files (counters crash.retained_enacted_*) and a half-enacted growth record."),
         "level_note": ("Trusted: Lean kernel; logical-state model (pipeline stages are P1); single-slot values (tier 255 by structural checks only); A-tail; "
                        "hook verif_dump."),
         "rule": ("seed%16: directed sse2-neighbour / crash-after-drop / move-into-full-page, multi-batch (>8192 entries), steady workload; seed%32 = 6: "
@@ -699,7 +727,7 @@ PROPS = {
         "assumptions": ["A-tail: distinct hashed keys differ in bytes 6..32 (generator embeds a unique id). Exact reach: excludes pairs of hashed keys that differ "
                         "in bytes 0..5 only = 208-bit partial Blake2b collision (non-uniform columns), equal user bytes 16..32 + 80-bit partial "
                         "SipHash-128 collision (uniform, format 8), user-chosen on uniform columns of format <= 7 / identity hash; false without it (F29)",
-                        "InputOK (totality): at most 64 set operations per K-bit prefix class, slots < 2^(K+6), K + relaunches <= 49; without the class "
+                        "InputOK (totality): at most 64 index-inserting set operations per K-bit prefix class, slots < 2^(K+6), K + relaunches <= 49; without the class "
                         "bound the growth never completes (F28); the old theorems keep AllBounded (<= 49 index bits, < 2^56 slots per tier) as a hypothesis",
                         "full theorems for the fixed code (exact find_entry, grow on move); ExactCur for reindex/no-panic otherwise",
                         "replay theorems: WF op sequences (DropTable targets the queue front; a growth writes into the new table in the same op)"],
